@@ -17,6 +17,10 @@ package proxy
 //@   ensures [C01 C04] refresh: err == nil && R0 < old(clock) ==> called(@RefreshSession#1) && arg(@RefreshSession#1, 1) == S && @RefreshSession#1.0 && @RefreshSession#1.1 == nil && called(@SaveSession#1) && @SaveSession#1 == nil && arg(@SaveSession#1, 3) == S
 //@   ensures [C01 C04] revalidate: err == nil && R0 >= clock && V0 < old(clock) ==> called(@ValidateSessionState#1) && arg(@ValidateSessionState#1, 1) == S && @ValidateSessionState#1 && called(@SaveSession#2) && @SaveSession#2 == nil && arg(@SaveSession#2, 3) == S
 //@   ensures [C04] lifetime_fixed: called(@LoadSession#1) && @LoadSession#1.1 == nil ==> S.LifetimeDeadline == at(@LoadSession#1, S.LifetimeDeadline)
+//@   ensures [C04] deadlines_only_from_provider_1: called(@LoadSession#1) && @LoadSession#1.1 == nil && !called(@RefreshSession#1) && !called(@ValidateSessionState#1) ==> S.ValidDeadline == at(@LoadSession#1, S.ValidDeadline) && S.RefreshDeadline == at(@LoadSession#1, S.RefreshDeadline) && S.GracePeriodStart == at(@LoadSession#1, S.GracePeriodStart)
+//@   ensures [C04] deadlines_only_from_provider_2: called(@RefreshSession#1) ==> S.ValidDeadline == at(@LoadSession#1, S.ValidDeadline) && S.RefreshDeadline == at(@RefreshSession#1, S.RefreshDeadline) && S.GracePeriodStart == at(@RefreshSession#1, S.GracePeriodStart) && S.AccessToken == at(@RefreshSession#1, S.AccessToken)
+//@   ensures [C04] deadlines_only_from_provider_3: called(@ValidateSessionState#1) ==> S.RefreshDeadline == at(@LoadSession#1, S.RefreshDeadline) && S.ValidDeadline == at(@ValidateSessionState#1, S.ValidDeadline) && S.GracePeriodStart == at(@ValidateSessionState#1, S.GracePeriodStart)
+//@   ensures [C04 C13] identity_untouched: called(@LoadSession#1) && @LoadSession#1.1 == nil ==> S.Email == at(@LoadSession#1, S.Email) && S.User == at(@LoadSession#1, S.User) && S.ProviderSlug == at(@LoadSession#1, S.ProviderSlug) && S.AuthorizedUpstream == at(@LoadSession#1, S.AuthorizedUpstream)
 //@   ensures [C01 C11] rules: err == nil ==> forall i :: 0 <= i && i < len(p.Validators) ==> typeis(p.Validators[i], "validators.EmailGroupValidator") || vpass(p.Validators[i].tag, p.Validators[i].pay, S.Email)
 //@   ensures [C01 C04] clears: err != nil ==> rw.$sessionCookie == 2
 //@   ensures [C03] user_header: err == nil ==> hdrIs(req.Header, "X-Forwarded-User", S.User)
